@@ -154,6 +154,11 @@ pub struct Config {
     pub merged: [MergedTimeline<PTimeline>; 2],
     pub shapes: [RefShape; 2],
     pub names: [&'static str; 2],
+    /// optional third animated state: when set, U2 carries this pool shape (histories A -> B -> C -> A)
+    pub zi: Option<usize>,
+    pub zspecs: Vec<TlSpec>,
+    pub zmerged: Option<MergedTimeline<PTimeline>>,
+    pub zshape: Option<RefShape>,
 }
 
 pub fn initial_values() -> P {
@@ -162,6 +167,10 @@ pub fn initial_values() -> P {
 
 impl Config {
     pub fn new(xi: usize, yi: usize, variant: u8) -> Config {
+        Self::with_third(xi, yi, variant, None)
+    }
+
+    pub fn with_third(xi: usize, yi: usize, variant: u8, zi: Option<usize>) -> Config {
         let p = pool(variant);
         let mk = |i: usize| MergedTimeline::of(p[i].1.iter().map(|s| s.build()).collect::<Vec<_>>());
         Config {
@@ -172,22 +181,30 @@ impl Config {
             merged: [mk(xi), mk(yi)],
             shapes: [RefShape::new(&p[xi].1), RefShape::new(&p[yi].1)],
             names: [p[xi].0, p[yi].0],
+            zi,
+            zspecs: zi.map(|z| p[z].1.clone()).unwrap_or_default(),
+            zmerged: zi.map(mk),
+            zshape: zi.map(|z| RefShape::new(&p[z].1)),
         }
     }
 
     pub fn build(&self, init_state: S4) -> Anim {
-        StateAnimatorBuilder::<S4, PTimeline>::new()
+        let b = StateAnimatorBuilder::<S4, PTimeline>::new()
             .from_state(init_state)
             .from_values(initial_values())
             .on(S4::X, self.merged[0].clone())
-            .on(S4::Y, self.merged[1].clone())
-            .build()
+            .on(S4::Y, self.merged[1].clone());
+        match &self.zmerged {
+            Some(z) => b.on(S4::U2, z.clone()).build(),
+            None => b.build(),
+        }
     }
 
     fn shape(&self, s: S4) -> Option<&RefShape> {
         match s {
             S4::X => Some(&self.shapes[0]),
             S4::Y => Some(&self.shapes[1]),
+            S4::U2 => self.zshape.as_ref(),
             _ => None,
         }
     }
@@ -195,7 +212,7 @@ impl Config {
     pub fn to_json(&self) -> Value {
         json!({"X": {"shape": self.names[0], "pool_index": self.xi, "components": self.specs[0].iter().map(|s| s.to_json()).collect::<Vec<_>>()},
                "Y": {"shape": self.names[1], "pool_index": self.yi, "components": self.specs[1].iter().map(|s| s.to_json()).collect::<Vec<_>>()},
-               "U1": "no timeline", "U2": "no timeline", "easing_variant": self.variant, "initial_values": initial_values().to_json()})
+               "U1": "no timeline", "U2": match self.zi { Some(z) => json!({"pool_index": z, "components": self.zspecs.iter().map(|s| s.to_json()).collect::<Vec<_>>()}), None => json!("no timeline") }, "easing_variant": self.variant, "initial_values": initial_values().to_json()})
     }
 }
 
@@ -362,7 +379,13 @@ fn animator_unit_test(cfg: &Config, init: S4, h: &[Op], prop: Prop, extra: &[Str
     for (i, name) in ["x", "y"].iter().enumerate() {
         s += &format!("    let {name} = MergedTimeline::of(vec![{}]);\n", cfg.specs[i].iter().map(|sp| sp.rust_source().replace('\n', "\n        ")).collect::<Vec<_>>().join(",\n        "));
     }
-    s += &format!("    StateAnimatorBuilder::<S4, PTimeline>::new().from_state(S4::{init:?}).from_values({}).on(S4::X, x).on(S4::Y, y).build()\n}}\n\n#[test]\nfn replay_case() {{\n    let mut a = build();\n", initial_values().rust_expr());
+    let third = if cfg.zi.is_some() {
+        s += &format!("    let z = MergedTimeline::of(vec![{}]);\n", cfg.zspecs.iter().map(|sp| sp.rust_source().replace('\n', "\n        ")).collect::<Vec<_>>().join(",\n        "));
+        ".on(S4::U2, z)"
+    } else {
+        ""
+    };
+    s += &format!("    StateAnimatorBuilder::<S4, PTimeline>::new().from_state(S4::{init:?}).from_values({}).on(S4::X, x).on(S4::Y, y){third}.build()\n}}\n\n#[test]\nfn replay_case() {{\n    let mut a = build();\n", initial_values().rust_expr());
     for (i, op) in h.iter().enumerate() {
         if i + 1 == h.len() {
             s += "    let before = a.current_values().clone();\n    let _ = &before;\n";
@@ -759,7 +782,7 @@ fn state_key(o: &Obs, m: &RefAnim) -> Vec<u64> {
         None => k.extend([0, 0, 0]),
     }
     k.extend(o.values.bits());
-    for s in [S4::X, S4::Y] {
+    for s in [S4::X, S4::Y, S4::U2] {
         match &m.entry[sidx(s)] {
             Some(p) => k.extend(p.bits()),
             None => k.extend([u64::MAX; 5]),
@@ -867,17 +890,20 @@ pub fn run(run: Run, prop: Prop) -> ! {
     };
     // configurations: all 144 (X shape, Y shape); easing variant alternates in quick, both in thorough;
     // initial state X (animated from non-default initial values) or U1 (every 5th config)
-    let mut cfgs: Vec<(usize, usize, u8, S4)> = vec![];
+    let mut cfgs: Vec<(usize, usize, u8, S4, Option<usize>)> = vec![];
     let np = pool(0).len();
     for xi in 0..np {
         for yi in 0..np {
             let idx = xi * np + yi;
             let init = if idx % 5 == 4 { S4::U1 } else { S4::X };
+            // every 4th configuration (thorough: an extra copy of every configuration) animates U2 too
+            let z = Some((xi * 3 + yi * 5 + 1) % np);
             if thorough {
-                cfgs.push((xi, yi, 0, init));
-                cfgs.push((xi, yi, 1, init));
+                cfgs.push((xi, yi, 0, init, None));
+                cfgs.push((xi, yi, 1, init, None));
+                cfgs.push((xi, yi, (idx % 2) as u8, init, z));
             } else {
-                cfgs.push((xi, yi, (idx % 2) as u8, init));
+                cfgs.push((xi, yi, (idx % 2) as u8, init, if idx % 4 == 3 { z } else { None }));
             }
         }
     }
@@ -888,8 +914,8 @@ pub fn run(run: Run, prop: Prop) -> ! {
         Acc::default,
         |ii, acc| {
             let (ci, fo) = items[ii];
-            let (xi, yi, variant, init) = cfgs[ci];
-            let cfg = Config::new(xi, yi, variant);
+            let (xi, yi, variant, init, zi) = cfgs[ci];
+            let cfg = Config::with_third(xi, yi, variant, zi);
             let rank0 = (ci as u64) << 52;
             if fo == ops.len() {
                 acc.configs += 1;
@@ -959,7 +985,7 @@ pub fn run(run: Run, prop: Prop) -> ! {
     cov.insert("traces_validated_against_impl".into(), json!(acc.histories));
     cov.insert("evaluations".into(), json!(acc.checks));
     cov.insert("distinct_nontrivial".into(), json!(acc.nontrivial));
-    cov.insert("rule".into(), json!(format!("{} animator configurations (X and Y timelines from a pool of 14 shapes: finite, to-only, mid-keyframe-only, delayed, Times 1, reversing, infinite, infinite-reversing-delayed, merged disjoint finite+infinite, merged overlapping, partial, empty merged list, infinite with delay = cycle, delayed Times 2; two un-animated states; Linear/polynomial or built-in Bezier easings; non-default initial values; initial state X or U1) x ALL histories of length 1..={} over the alphabet [{}] (a state is the history: the real animator is rebuilt and replayed; clauses are evaluated on the last operation of each history, so every operation of every history is checked once) + deviation-bounded pass: default advance(1/4), all histories of length <= {} with <= {} deviations + de-duplicating breadth-first pass keyed on the complete mutable state (counts under bfs_pass; a capped level is reported, everything below the cap depth is complete). {}", cfgs.len(), depth, ops.iter().map(|o| o.name()).collect::<Vec<_>>().join(", "), dev_len, dev_k, match prop {
+    cov.insert("rule".into(), json!(format!("{} animator configurations (X and Y timelines from a pool of 14 shapes: finite, to-only, mid-keyframe-only, delayed, Times 1, reversing, infinite, infinite-reversing-delayed, merged disjoint finite+infinite, merged overlapping, partial, empty merged list, infinite with delay = cycle, delayed Times 2; two un-animated states (in every 4th configuration - thorough: an extra copy of every configuration - U2 is a third animated state, so A -> B -> C -> A histories occur); Linear/polynomial or built-in Bezier easings; non-default initial values; initial state X or U1) x ALL histories of length 1..={} over the alphabet [{}] (a state is the history: the real animator is rebuilt and replayed; clauses are evaluated on the last operation of each history, so every operation of every history is checked once) + deviation-bounded pass: default advance(1/4), all histories of length <= {} with <= {} deviations + de-duplicating breadth-first pass keyed on the complete mutable state (counts under bfs_pass; a capped level is reported, everything below the cap depth is complete). {}", cfgs.len(), depth, ops.iter().map(|o| o.name()).collect::<Vec<_>>().join(", "), dev_len, dev_k, match prop {
         Prop::C04 => "Oracle: current_values bit-identical before/after every set_state; same-state set_state leaves time, pause record and is_ended unchanged. non-trivial = set_state calls that change the state",
         Prop::C05 => "Oracle: RefAnimator stepped alongside (current_state, time in state via hook, live pause record via hook, values = state's merged timeline started from the values observed at entry, evaluated at the time in state; un-animated fields bit-identical). non-trivial = operations after which the current state animates at least one property",
         Prop::C06 => "Companion: every sequence of 2..5 non-representable steps (0.1,0.2,0.3,1/3,0.7) vs one advance of their f32 sum, values within float rounding (1e-3 of the value scale; sequences ending within 2e-5 s of a reference discontinuity skipped). Oracle: the history and its normal form (consecutive advances merged, zero advances and same-state changes dropped) end with bit-identical values, state and is_ended; advance(0) is a no-op. non-trivial = histories that differ from their normal form",
@@ -978,7 +1004,7 @@ pub fn run(run: Run, prop: Prop) -> ! {
 
 pub fn replay(case: &Value, prop: Prop) -> bool {
     let c = &case["config"];
-    let cfg = Config::new(c["X"]["pool_index"].as_u64().unwrap_or(0) as usize, c["Y"]["pool_index"].as_u64().unwrap_or(0) as usize, c["easing_variant"].as_u64().unwrap_or(0) as u8);
+    let cfg = Config::with_third(c["X"]["pool_index"].as_u64().unwrap_or(0) as usize, c["Y"]["pool_index"].as_u64().unwrap_or(0) as usize, c["easing_variant"].as_u64().unwrap_or(0) as u8, c["U2"]["pool_index"].as_u64().map(|z| z as usize));
     let init = *S4_ALL.iter().find(|x| Some(format!("{x:?}").as_str()) == case["initial_state"].as_str()).unwrap_or(&S4::X);
     let h: Vec<Op> = case["history"].as_array().map(|a| a.iter().map(Op::from_json).collect()).unwrap_or_default();
     let mut acc = Acc::default();
